@@ -103,6 +103,23 @@ void DELSUB(DELSUB_a0 node, DELSUB_a1 db) {
   *(uint64_t *)(G_db + NLAY(POL, DB, NODECOUNTS)) = 0;                 /* D ensures (by induction): every leaf of the subtree is released and counted down */
 #endif
 }
+#if PART == 4
+/* destructor and empty(): ~db / ~olc_db release the whole tree through D exactly once iff there is one (C10: "all of it is returned when the index is
+ * destroyed"), and free nothing directly; empty() is true iff there is no root (C01). */
+void harness(void) {
+  DTOR_a0 dbt = malloc(sizeof(*dbt)); __CPROVER_assume(dbt != 0); G_db = (uint8_t *)dbt;
+  G_root = nondet_u64(); *(uint64_t *)(G_db + NLAY(POL, DB, ROOT)) = G_root;
+#ifdef VERIF_CFG_STATS
+  if (G_root == 0) __CPROVER_assume(*(uint64_t *)(G_db + NLAY(POL, DB, NODECOUNTS)) == 0);      /* empty index: no leaves (statistics invariant, as for clear()) */
+#endif
+  __CPROVER_assert((_Bool)EMPTY((EMPTY_a0)dbt) == (G_root == 0), "C01: empty() is true iff the index has no root (no entries)");
+  __CPROVER_assert(G_calls == 0 && *(uint64_t *)(G_db + NLAY(POL, DB, ROOT)) == G_root, "empty() changes nothing");
+  DTOR(dbt);
+  __CPROVER_assert(G_calls == (G_root != 0 ? 1u : 0u), "C10: the destructor releases the whole tree through D, once, iff there is one");
+  __CPROVER_assert(lg_frees == 0 && lg_allocs == 0 && !verif_exc_pending, "the destructor itself releases nothing directly and does not throw");
+  VERIF_CANARY("destructor returns");
+}
+#else
 void harness(void) {
   CLEAR_a0 dbt = malloc(sizeof(*dbt)); __CPROVER_assume(dbt != 0); G_db = (uint8_t *)dbt;
   G_root = nondet_u64(); *(uint64_t *)(G_db + NLAY(POL, DB, ROOT)) = G_root;
@@ -120,4 +137,5 @@ void harness(void) {
   __CPROVER_assert(lg_frees == 0 && lg_allocs == 0, "clear itself releases nothing directly");
   VERIF_CANARY("clear returns");
 }
+#endif
 #endif
